@@ -4,31 +4,7 @@
 //@import find_next_lb
 //@import find_prev_lb
 
-/// ls is the start of the blank-only line prefix that IndentRemover deletes in front of the seam `p`
-pub open spec fn indent_ok(b: Seq<u8>, p: int, ls: int) -> bool {
-    &&& 0 < ls <= p < b.len()
-    &&& is_lf(b[p])
-    &&& is_lf(b[ls - 1])
-    &&& all_blank(b, ls, p)
-}
-
-pub open spec fn next2(b: Seq<u8>, p: int) -> Option<int> {
-    match next_lb(b, p, true) { Some(q1) => next_lb(b, q1 + 1, true), None => None }
-}
-pub open spec fn prev2(b: Seq<u8>, p: int) -> Option<int> {
-    match prev_lb(b, p, true) { Some(q1) => prev_lb(b, q1, true), None => None }
-}
-
-/// exact results of the four seam formatters
-pub open spec fn empty_line_spec(b: Seq<u8>, p: int) -> (int, int) {
-    if p < b.len() && is_lf(b[p]) && next2(b, p) is None && prev2(b, p) is None { (p, p + 1) } else { (p, p) }
-}
-pub open spec fn prev_remover_spec(b: Seq<u8>, p: int) -> (int, int) {
-    match prev2(b, p) { Some(q2) => (q2 + 1, p), None => (p, p) }
-}
-pub open spec fn next_remover_spec(b: Seq<u8>, p: int) -> (int, int) {
-    match next2(b, p) { Some(q2) => (p, q2), None => (p, p) }
-}
+//@include seam_vocab.vs
 
 //@fn id=trait_formatter file=code/formatter.rs name=format in="trait Formatter" props=C01,C02,C13,C14
 //@ret r
